@@ -81,6 +81,8 @@ def build_harness(race=False):
 def run_harness(binary, driver, cases, out, summary, tier, extra=(), timeout=3600, env=None):
     cmd = [binary, driver, "-cases", cases, "-out", out, "-summary", summary, "-seed", str(seed()), "-tier", tier] + list(extra)
     p = subprocess.run(cmd, capture_output=True, text=True, timeout=timeout, env=env)
+    with open(summary + ".stderr", "w") as f:
+        f.write(p.stderr)
     if p.returncode != 0:
         raise Infra("harness %s failed (exit %d):\n%s\n%s" % (driver, p.returncode, p.stdout[-4000:], p.stderr[-4000:]))
     with open(summary) as f:
@@ -147,7 +149,7 @@ def run_tlc(module, cfg_text, workdir=None, workers=8, timeout=1800, extra=(), c
     m = re.search(r"Action property (\w+) is violated|Temporal properties were violated", r.out)
     if m and not r.violated:
         r.violated = m.group(1) or "temporal"
-    if "Postcondition" in r.out and "is false" in r.out:
+    if re.search(r"Postcondition .*is false", r.out) and "is not a legal state" not in r.out and "Error: Evaluating" not in r.out:
         r.postcondition_false = True
     if coverage:
         last = r.out.rfind("The coverage statistics at")
